@@ -72,6 +72,18 @@ def run(ctx) -> None:
     # a wrong piece in the surrogate decomposition makes the schema reject valid text
     from . import c17 as _c17
     _c17.run(ctx)
+    # "never rejects valid data": a length keyword fed from the wrong bound, or a bound computed one off / folded in the wrong
+    # direction, rejects instances that satisfy the invariants (shared with C12 / C15)
+    ctx.rule("KEYS", "length keywords are fed from the matching bound and guarded only by their own source (shared with C12)", floor=4)
+    ctx.rule("BOUND", "each (operand order, comparator) arm of the length matcher yields the oracle's (bound kind, offset) (shared with C15)", floor=12)
+    ctx.rule("DIR", "min bounds fold with max, max bounds fold with min; merging two ranges intersects them (shared with C15)", floor=8)
+    from . import c12 as _c12, c15 as _c15
+    _c12.check_keys(ctx)
+    _c15._check_bounds(ctx)
+    _c15._check_direction(ctx)
+    ctx.rule("ANCHOR-ATOMS", "the front end accepts a pattern only with one top-level alternative, first ^ and last $: only then the searching `pattern` keyword equals the full match (shared with C06)", floor=4)
+    from ..rules import anchor as _anchor
+    _anchor.check_anchor_agreement(ctx, "ANCHOR-ATOMS")
     for f in mod.functions.values():
         err.check_err12(ctx, f, "ERR1", "ERR1v", "ERR2")
         err.check_err3(ctx, f, "ERR3")
